@@ -724,18 +724,24 @@ Proof.
 Qed.
 
 (* ---- atoms and string runs ---- *)
+(* since the repair of the leading-minus defect, maybe_basic answers "not a basic type" only
+   when nothing was consumed: the reference / macro parsers start at the value's first token *)
+Lemma maybe_basic_none_plain : forall ts, maybe_basic o wb ts = POk None -> cur_is ts "-" = false.
+Proof.
+  intros ts Em. unfold maybe_basic in Em. destruct (cur_is ts "-"); [|reflexivity].
+  destruct (advance wb ts) as [ts1|e]; [|discriminate].
+  destruct (in_types (ty (cur ts1)) [NAME; NUMBER; STRING]); [|unfold syntax_here in Em; discriminate].
+  destruct (basic_loop _ o wb ts1 "-"); discriminate.
+Qed.
+
 Lemma pv_basic_inv : forall f ts v rest,
   closer (text (cur ts)) = None -> parse_value (S f) o wb ts = POk (v, rest) -> Forall G ts ->
   maybe_basic o wb ts = POk (Some (v, rest)).
 Proof.
   intros f ts v rest Hc H HG. cbn [parse_value] in H. rewrite Hc in H.
   destruct (maybe_basic o wb ts) as [[r|]|e] eqn:Em; [injection H as ->; reflexivity | | discriminate].
-  exfalso.
-  match type of H with context [cur_is ?t "@"] => assert (HGb : Forall G t) end.
-  { destruct (cur_is ts "-"); [|exact HG].
-    destruct (advance wb ts) as [t1|e] eqn:Ea; [|exact HG].
-    destruct (advance_inv_G _ _ Ea HG) as [x [tr [_ [_ [_ HG1]]]]]. exact HG1. }
-  destruct (G_no_sigil _ HGb) as [H1 H2]. rewrite H1, H2 in H. unfold syntax_here in H. discriminate.
+  exfalso. rewrite (maybe_basic_none_plain _ Em) in H.
+  destruct (G_no_sigil _ HG) as [H1 H2]. rewrite H1, H2 in H. unfold syntax_here in H. discriminate.
 Qed.
 
 Lemma name_or_number : forall t, in_types (ty t) [NAME; NUMBER; STRING] = true ->
@@ -842,7 +848,12 @@ End Sound.
 (* side conditions on the token stream (all per token, hence inherited by every suffix):
    no "@" / "%" sigil (references and macros are not literals), atoms are not spelled like
    punctuation (the tok_ok of completeness), and the oracle -- a table of ast.literal_eval
-   results -- has no value for "-" followed by a string literal (Python has none) *)
+   results -- has no value for "-" followed by a string literal (Python has none).
+   After the repair of the leading-minus defect the sigil clause is STILL needed (a value whose
+   first token is "@" / "%" is read as a reference / macro: ex_ref, ex_macro below), but it now
+   only ever matters for the FIRST token of a value (value_first_token below): "-@x" is
+   rejected by the parser itself (minus_needs_number), no longer by this hypothesis.  The
+   oracle clause is still needed: "-" + STRING still reaches the oracle (ex_neg_string). *)
 Definition lit_tok (o : oracle) (t : token) : Prop := base_ok o t.
 
 (* GENERAL FORM, no assumption on token kinds or positions: the consumed tokens are a rendering
@@ -1008,6 +1019,188 @@ Qed.
 Print Assumptions C02_agree.
 
 (* ------------------------------------------------------------------ *)
+(* the repaired leading-minus rule: a '-' that is not followed by a NAME / NUMBER / STRING token is
+   never accepted, so a value is a reference / macro exactly when its FIRST token is the sigil *)
+Lemma minus_closer : forall ts, cur_is ts "-" = true -> closer (text (cur ts)) = None.
+Proof. intros ts H. unfold cur_is in H. apply String.eqb_eq in H. rewrite H. reflexivity. Qed.
+
+Theorem minus_needs_number_S : forall o wb ts ts1 f,
+  cur_is ts "-" = true -> advance wb ts = POk ts1 ->
+  in_types (ty (cur ts1)) [NAME; NUMBER; STRING] = false ->
+  parse_value (S f) o wb ts = PErr (ESyntax (srow (cur ts1))).
+Proof.
+  intros o wb ts ts1 f H H0 H1. cbn [parse_value]. rewrite (minus_closer _ H).
+  unfold maybe_basic. rewrite H, H0, H1. reflexivity.
+Qed.
+
+Theorem minus_needs_number : forall o wb ts ts1,
+  cur_is ts "-" = true -> advance wb ts = POk ts1 ->
+  in_types (ty (cur ts1)) [NAME; NUMBER; STRING] = false ->
+  forall fuel, exists e, parse_value fuel o wb ts = PErr e.
+Proof.
+  intros o wb ts ts1 H H0 H1 [|f]; [eexists; reflexivity|].
+  eexists. exact (minus_needs_number_S o wb ts ts1 f H H0 H1).
+Qed.
+
+(* positive form: a value that starts with '-' is a negated atom *)
+Theorem minus_value_is_basic : forall fuel o wb ts v rest,
+  cur_is ts "-" = true -> parse_value fuel o wb ts = POk (v, rest) ->
+  exists ts1, advance wb ts = POk ts1 /\ in_types (ty (cur ts1)) [NAME; NUMBER; STRING] = true /\
+              basic_loop (S (List.length ts1)) o wb ts1 "-" = POk (v, rest).
+Proof.
+  intros [|f] o wb ts v rest Hm H; [cbn [parse_value] in H; discriminate|].
+  destruct (advance wb ts) as [ts1|e] eqn:Ea.
+  - destruct (in_types (ty (cur ts1)) [NAME; NUMBER; STRING]) eqn:Et.
+    + exists ts1. split; [reflexivity|]. split; [exact Et|].
+      cbn [parse_value] in H. rewrite (minus_closer _ Hm) in H. unfold maybe_basic in H.
+      rewrite Hm, Ea, Et in H.
+      destruct (basic_loop (S (List.length ts1)) o wb ts1 "-") as [r|e]; [|discriminate].
+      injection H as ->. reflexivity.
+    + rewrite (minus_needs_number_S o wb ts ts1 f Hm Ea Et) in H. discriminate.
+  - cbn [parse_value] in H. rewrite (minus_closer _ Hm) in H. unfold maybe_basic in H.
+    rewrite Hm, Ea in H. discriminate.
+Qed.
+
+(* the first token decides what kind of value is read *)
+Theorem value_first_token : forall fuel o wb ts v rest,
+  parse_value fuel o wb ts = POk (v, rest) ->
+  closer (text (cur ts)) <> None \/ cur_is ts "@" = true \/ cur_is ts "%" = true \/
+  maybe_basic o wb ts = POk (Some (v, rest)).
+Proof.
+  intros [|f] o wb ts v rest H; [cbn [parse_value] in H; discriminate|].
+  destruct (closer (text (cur ts))) eqn:Hc; [left; discriminate|]. right.
+  cbn [parse_value] in H. rewrite Hc in H.
+  destruct (maybe_basic o wb ts) as [[r|]|e] eqn:Em;
+    [injection H as ->; right; right; reflexivity | | discriminate].
+  rewrite (maybe_basic_none_plain o wb _ Em) in H.
+  destruct (cur_is ts "@"); [left; reflexivity|].
+  destruct (cur_is ts "%"); [right; left; reflexivity|].
+  unfold syntax_here in H. discriminate.
+Qed.
+Print Assumptions minus_needs_number.
+Print Assumptions minus_value_is_basic.
+Print Assumptions value_first_token.
+
+(* the parser BEFORE the repair (maybe_basic_orig): the consumed '-' was dropped *)
+Fixpoint parse_value_orig (fuel : nat) (o : oracle) (wb : bool) (ts : list token) {struct fuel}
+  : pres (out * list token) :=
+  match fuel with
+  | O => PErr (EOther "OutOfFuel")
+  | S f =>
+      match closer (text (cur ts)) with
+      | Some close =>
+          let is_dict := String.eqb (text (cur ts)) "{" in
+          let is_tuple := String.eqb (text (cur ts)) "(" in
+          match advance wb ts with
+          | PErr e => PErr e
+          | POk ts1 =>
+              (* the item loop *)
+              let loop := (fix loop (n : nat) (ts : list token) (vals : list out) (pairs : list (out * out))
+                                    (saw_comma : bool) {struct n}
+                             : pres (list out * list (out * out) * bool * list token) :=
+                 match n with
+                 | O => PErr (EOther "OutOfFuel")
+                 | S n' =>
+                     if cur_is ts close then POk (vals, pairs, saw_comma, ts) else
+                     let item :=
+                       if is_dict then
+                         match parse_value_orig f o wb ts with
+                         | PErr e => PErr e
+                         | POk (k, ts') =>
+                             if negb (cur_is ts' ":") then syntax_here ts' else
+                             match advance wb ts' with
+                             | PErr e => PErr e
+                             | POk ts'' =>
+                                 match parse_value_orig f o wb ts'' with
+                                 | PErr e => PErr e
+                                 | POk (v, ts3) => POk (v, Some (k, v), ts3)
+                                 end
+                             end
+                         end
+                       else match parse_value_orig f o wb ts with
+                            | PErr e => PErr e
+                            | POk (v, ts') => POk (v, None, ts')
+                            end in
+                     match item with
+                     | PErr e => PErr e
+                     | POk (v, kv, ts') =>
+                         let vals' := vals ++ [v] in
+                         let pairs' := match kv with Some p => pairs ++ [p] | None => pairs end in
+                         if cur_is ts' "," then
+                           match advance wb ts' with
+                           | PErr e => PErr e
+                           | POk ts'' => loop n' ts'' vals' pairs' true
+                           end
+                         else if negb (cur_is ts' close) then syntax_here ts'
+                         else loop n' ts' vals' pairs' saw_comma
+                     end
+                 end) in
+              match loop (S (List.length ts1)) ts1 [] [] false with
+              | PErr e => PErr e
+              | POk (vals, pairs, saw_comma, ts2) =>
+                  match advance wb ts2 with
+                  | PErr e => PErr e
+                  | POk ts3 =>
+                      let v :=
+                        if is_dict then build_dict pairs
+                        else if is_tuple then
+                          match vals with
+                          | [x] => if saw_comma then OT "T" vals else x
+                          | _ => OT "T" vals
+                          end
+                        else OT "L" vals in
+                      POk (v, ts3)
+                  end
+              end
+          end
+      | None =>
+          match maybe_basic_orig o wb ts with
+          | PErr e => PErr e
+          | POk (Some r) => POk r
+          | POk None =>
+              (* maybe_basic may have consumed a leading '-' : continue from where it stopped *)
+              let tsb := if cur_is ts "-" then match advance wb ts with POk t => t | PErr _ => ts end else ts in
+              if cur_is tsb "@" then
+                match advance_one tsb with
+                | PErr e => PErr e
+                | POk ts1 =>
+                    match parse_selector true true wb ts1 with
+                    | PErr e => PErr e
+                    | POk (name, ts2) =>
+                        if cur_is ts2 "(" then
+                          match advance wb ts2 with
+                          | PErr e => PErr e
+                          | POk ts3 =>
+                              if negb (cur_is ts3 ")") then syntax_here ts3 else
+                              match advance_one ts3 with
+                              | PErr e => PErr e
+                              | POk ts4 => match skip_ws wb ts4 with
+                                           | PErr e => PErr e
+                                           | POk ts5 => POk (OT "Ref" [OS name; OB true], ts5)
+                                           end
+                              end
+                          end
+                        else match skip_ws wb ts2 with
+                             | PErr e => PErr e
+                             | POk ts3 => POk (OT "Ref" [OS name; OB false], ts3)
+                             end
+                    end
+                end
+              else if cur_is tsb "%" then
+                match advance_one tsb with
+                | PErr e => PErr e
+                | POk ts1 =>
+                    match parse_selector true true wb ts1 with
+                    | PErr e => PErr e
+                    | POk (name, ts2) => POk (OT "Macro" [OS name], ts2)
+                    end
+                end
+              else syntax_here tsb
+          end
+      end
+  end.
+
+(* ------------------------------------------------------------------ *)
 (* Why the side conditions: the exact converse fails without them (all by computation) *)
 Module C02_Sound_Examples.
 Definition tk ty s := {| ty := ty; text := s; srow := 1; scol := 0; erow := 1; ecol := 0 |}.
@@ -1034,6 +1227,14 @@ Proof. vm_compute. reflexivity. Qed.
 Example ex_indent :
   parse_value 5 [("1", Some (OZ 1))] false [tk OP "["; tk INDENT "  "; tk NUMBER "1"; tk OP "]"; nl]
   = POk (OT "L" [OZ 1], [nl]).
+Proof. vm_compute. reflexivity. Qed.
+
+(* before the repair "-@x" read as the reference x; now it is a syntax error *)
+Example ex_minus_ref_orig :
+  parse_value_orig 5 [] false [tk OP "-"; tk OP "@"; tk NAME "x"; nl] = POk (OT "Ref" [OS "x"; OB false], [nl]).
+Proof. vm_compute. reflexivity. Qed.
+Example ex_minus_ref_repaired :
+  parse_value 5 [] false [tk OP "-"; tk OP "@"; tk NAME "x"; nl] = PErr (ESyntax 1).
 Proof. vm_compute. reflexivity. Qed.
 
 (* trivia between a minus sign and its number is skipped even outside brackets: such a stream
